@@ -44,6 +44,7 @@ struct Obj : public ObjBase
 {
   Obj() {}
   void set_use_tofsens(bool b) { this->use_tofsens = b; }
+  bool get_use_tofsens() const { return this->use_tofsens; }
 };
 
 // An objective function object constructed in storage pre-filled with a chosen byte, so that members
@@ -69,14 +70,17 @@ struct Holder
 };
 
 // A normalisation object that goes through the *base class* code paths BinNormalisation::apply/undo
-// (division by max(1e-20,efficiency) / multiplication by the efficiency); efficiency independent of TOF bin.
+// (division by max(1e-20,efficiency) / multiplication by the efficiency); efficiency independent of the TOF bin, or
+// (tofdep) one efficiency per TOF bin, in which case the object says so through is_TOF_only_norm().
 struct EffNorm : public BinNormalisation
 {
-  std::map<std::array<int, 4>, float> eff;
+  std::map<std::array<int, 5>, float> eff;
+  bool tofdep = false;
   std::string get_registered_name() const override { return "verif efficiency table"; }
+  bool is_TOF_only_norm() const override { return tofdep; }
   float get_bin_efficiency(const Bin& b) const override
   {
-    auto it = eff.find({ b.segment_num(), b.view_num(), b.axial_pos_num(), b.tangential_pos_num() });
+    auto it = eff.find({ b.segment_num(), b.view_num(), b.axial_pos_num(), b.tangential_pos_num(), tofdep ? b.timing_pos_num() : 0 });
     return it == eff.end() ? 1.F : it->second;
   }
 };
@@ -416,14 +420,15 @@ cmp_vec(const std::vector<float>& impl, const std::vector<double>& expect, const
 struct CaseCfg
 {
   int N, R, span, tofbins, tofmash, nxy, ntang, symflags, normkind, maxseg;
+  int maxtof = -1; // argument of set_max_timing_pos_num_to_process (-1: the setter is not called)
   bool additive, zero, use_subset_sens, use_tofsens;
   float voxel_factor;
   int datamode; // 0 Poisson from the mean, 1 all counts >= 1, 2 with an all-zero view and singular bins, 3 tiny fractional counts
   std::string str() const
   {
-    char buf[256];
-    std::snprintf(buf, sizeof buf, "N=%d R=%d span=%d tof=%d/%d nxy=%d ntang=%d sym=%d norm=%d maxseg=%d add=%d zero=%d subsens=%d tofsens=%d data=%d",
-                  N, R, span, tofbins, tofmash, nxy, ntang, symflags, normkind, maxseg, additive, zero, use_subset_sens, use_tofsens, datamode);
+    char buf[320];
+    std::snprintf(buf, sizeof buf, "N=%d R=%d span=%d tof=%d/%d nxy=%d ntang=%d sym=%d norm=%d maxseg=%d maxtof=%d add=%d zero=%d subsens=%d tofsens=%d data=%d",
+                  N, R, span, tofbins, tofmash, nxy, ntang, symflags, normkind, maxseg, maxtof, additive, zero, use_subset_sens, use_tofsens, datamode);
     return buf;
   }
 };
@@ -433,8 +438,12 @@ struct Case
   CaseCfg c;
   shared_ptr<ExamInfo> exam;
   Geo g;          // geometry of the measured data, with explicit rows
-  Geo gs;         // geometry used for the sensitivity (non-TOF clone when TOF data and !use_tofsens), with explicit rows
-  bool same_proj; // sensitivity uses the same projector
+  Geo gs;         // non-TOF clone of the geometry (TOF data only), with explicit rows: used for the sensitivity when !use_tofsens
+  bool tof = false;
+  bool norm_tof = false;   // some link of the normalisation chain has one factor per TOF bin
+  std::string norm_links;  // the links of the chain for the `tofsens` operation: T trivial, P0/P1 FromProjData (non-TOF/TOF data), E0/E1 table
+  bool same_proj; // expected: sensitivity computed by set_up uses the same projector (non-TOF data, use_tofsens, or TOF normalisation)
+  int tofmax_data = 0;
   shared_ptr<TargetT> image;
   ImgIdx* ix = nullptr;
   std::vector<float> lam, x;
@@ -461,56 +470,77 @@ static shared_ptr<BinNormalisation>
 make_norm(Case& k, vh::Rng& rng)
 {
   const int kind = k.c.normkind;
-  // factors depend on (segment, view, ax, tang) only, so that the same object serves TOF data and the non-TOF sensitivity
-  auto fill_factor = [&](char tag, double lo, double hi) -> std::map<std::array<int, 4>, float> {
-    std::map<std::array<int, 4>, float> t;
+  // One factor per (segment, view, ax, tang) — the same for every TOF bin, so that the object also serves the non-TOF sensitivity — or
+  // (tofdep, TOF data only) one factor per (segment, view, ax, tang, TOF bin): the bin of the normalisation data with the indices of the
+  // data bin is the factor of that data bin.
+  auto fill_factor = [&](char tag, double lo, double hi, bool tofdep) -> std::map<std::array<int, 5>, float> {
+    std::map<std::array<int, 5>, float> t;
     for (auto& b : k.g.bins)
       {
-        std::array<int, 4> key = { b.seg, b.view, b.ax, b.tang };
+        std::array<int, 5> key = { b.seg, b.view, b.ax, b.tang, tofdep ? b.tof : 0 };
         if (!t.count(key))
           t[key] = static_cast<float>(lo + (hi - lo) * rng.unit());
       }
     for (auto& b : k.g.bins)
-      b.fac.push_back(std::make_pair(tag, t[{ b.seg, b.view, b.ax, b.tang }]));
+      b.fac.push_back(std::make_pair(tag, t[{ b.seg, b.view, b.ax, b.tang, tofdep ? b.tof : 0 }]));
+    // (with a TOF-dependent link the non-TOF geometry is not a legal one for the normalisation object: the library must not use it)
     for (auto& b : k.gs.bins)
-      if (!k.same_proj)
-        b.fac.push_back(std::make_pair(tag, t[{ b.seg, b.view, b.ax, b.tang }]));
+      b.fac.push_back(std::make_pair(tag, t[{ b.seg, b.view, b.ax, b.tang, 0 }]));
     return t;
   };
-  auto from_projdata = [&]() -> shared_ptr<BinNormalisation> {
-    auto t = fill_factor('N', 0.6, 2.5);
-    // non-TOF normalisation data (also valid for TOF emission data)
+  auto from_projdata = [&](bool tofdep) -> shared_ptr<BinNormalisation> {
+    auto t = fill_factor('N', 0.6, 2.5, tofdep);
+    // non-TOF normalisation data are also valid for TOF emission data (BinNormalisationFromProjData.cxx:130: timing position 0 for all)
     Geo gn;
-    gn.pdi = k.g.pdi->create_non_tof_clone();
+    gn.pdi = tofdep ? k.g.pdi : k.g.pdi->create_non_tof_clone();
     enumerate_bins(gn);
     std::vector<float> vals(gn.bins.size());
     for (std::size_t i = 0; i < gn.bins.size(); ++i)
-      vals[i] = t[{ gn.bins[i].seg, gn.bins[i].view, gn.bins[i].ax, gn.bins[i].tang }];
+      vals[i] = t[{ gn.bins[i].seg, gn.bins[i].view, gn.bins[i].ax, gn.bins[i].tang, tofdep ? gn.bins[i].tof : 0 }];
     shared_ptr<ProjData> pd = make_projdata(k.exam, gn, vals);
+    k.norm_links += tofdep ? " P1" : " P0";
+    k.norm_tof = k.norm_tof || tofdep;
     return shared_ptr<BinNormalisation>(new BinNormalisationFromProjData(pd));
   };
-  auto from_eff = [&]() -> shared_ptr<BinNormalisation> {
-    auto t = fill_factor('E', 0.3, 1.5);
+  auto from_eff = [&](bool tofdep) -> shared_ptr<BinNormalisation> {
+    auto t = fill_factor('E', 0.3, 1.5, tofdep);
     shared_ptr<EffNorm> e(new EffNorm);
     e->eff = t;
+    e->tofdep = tofdep;
+    k.norm_links += tofdep ? " E1" : " E0";
+    k.norm_tof = k.norm_tof || tofdep;
     return e;
   };
   switch (kind)
     {
     case 0:
+      k.norm_links = " T";
       return shared_ptr<BinNormalisation>(new TrivialBinNormalisation);
     case 1:
-      return from_projdata();
+      return from_projdata(false);
     case 2: {
-      auto a = from_projdata();
-      auto b = from_projdata();
+      auto a = from_projdata(false);
+      auto b = from_projdata(false);
       return shared_ptr<BinNormalisation>(new ChainedBinNormalisation(a, b));
     }
     case 3:
-      return from_eff();
+      return from_eff(false);
+    case 4: {
+      auto a = from_eff(false);
+      auto b = from_projdata(false);
+      return shared_ptr<BinNormalisation>(new ChainedBinNormalisation(a, b));
+    }
+    // TOF data only: normalisation with one factor per TOF bin
+    case 5:
+      return from_projdata(true);
+    case 6: {
+      auto a = from_eff(false);
+      auto b = from_projdata(true);
+      return shared_ptr<BinNormalisation>(new ChainedBinNormalisation(a, b));
+    }
     default: {
-      auto a = from_eff();
-      auto b = from_projdata();
+      auto a = from_projdata(true);
+      auto b = from_eff(true);
       return shared_ptr<BinNormalisation>(new ChainedBinNormalisation(a, b));
     }
     }
@@ -541,8 +571,9 @@ build_case(Case& k, vh::Rng& rng)
     if (d > 5.e-7 * pmax)
       return false;
   }
-  k.same_proj = !k.g.pdi->is_tof_data() || c.use_tofsens;
-  if (!k.same_proj)
+  k.tof = k.g.pdi->is_tof_data();
+  k.tofmax_data = k.g.pdi->get_max_tof_pos_num();
+  if (k.tof)
     {
       k.gs.pdi = k.g.pdi->create_non_tof_clone();
       enumerate_bins(k.gs);
@@ -560,6 +591,8 @@ build_case(Case& k, vh::Rng& rng)
         k.lam[i] = 0.F;
     }
   k.norm = make_norm(k, rng);
+  // PoissonLogLikelihoodWithLinearModelForMeanAndProjData.cxx:539 and :646: TOF normalisation data switch the TOF sensitivity on
+  k.same_proj = !k.tof || c.use_tofsens || k.norm_tof;
   // additive term and data
   std::vector<float> yv(k.g.bins.size()), av(k.g.bins.size());
   std::vector<float> truth(nvox);
@@ -614,6 +647,8 @@ configure(Obj& obj, const Case& k, int num_subsets)
   obj.set_normalisation_sptr(k.norm);
   obj.set_zero_seg0_end_planes(k.c.zero);
   obj.set_max_segment_num_to_process(k.c.maxseg);
+  if (k.c.maxtof >= 0)
+    obj.set_max_timing_pos_num_to_process(k.c.maxtof);
   obj.set_use_subset_sensitivities(k.c.use_subset_sens);
   obj.set_use_tofsens(k.c.use_tofsens);
   obj.set_num_subsets(num_subsets);
@@ -621,11 +656,11 @@ configure(Obj& obj, const Case& k, int num_subsets)
 
 // viewgrams (ids in geometry g) processed for one subset, by the library's own subset scheme (its partition property is C06's)
 static std::vector<int>
-subset_viewgrams(const Geo& g, const DataSymmetriesForViewSegmentNumbers& sym, int maxseg, int subset, int n)
+subset_viewgrams(const Geo& g, const DataSymmetriesForViewSegmentNumbers& sym, int maxseg, int maxtof, int subset, int n)
 {
   std::vector<int> ids;
   const std::vector<ViewSegmentNumbers> basics = detail::find_basic_vs_nums_in_subset(*g.pdi, sym, -maxseg, maxseg, subset, n);
-  for (int tof = g.pdi->get_min_tof_pos_num(); tof <= g.pdi->get_max_tof_pos_num(); ++tof)
+  for (int tof = std::max(-maxtof, g.pdi->get_min_tof_pos_num()); tof <= std::min(maxtof, g.pdi->get_max_tof_pos_num()); ++tof)
     for (auto& bvs : basics)
       {
         std::vector<ViewSegmentNumbers> rel;
@@ -707,22 +742,15 @@ run_case(Out& o, Case& k, vh::Rng& rng, int case_id, bool thorough, std::map<std
   o.line("img " + hexvec(k.lam), "ok");
   o.line("inp " + hexvec(k.x), "ok");
   emit_geometry(o, k, "bin", k.g, true);
-  if (!k.same_proj)
+  if (k.tof)
     emit_geometry(o, k, "sbin", k.gs, false);
 
   shared_ptr<TargetT> lam_im(k.image->get_empty_copy()), x_im(k.image->get_empty_copy());
   from_vec(*lam_im, k.lam);
   from_vec(*x_im, k.x);
 
-  // all bins of the data set within the segment range (for the "sum over subsets = full" clause), independent of the subset scheme
-  std::vector<int> all_bins, all_sens_bins;
-  for (std::size_t i = 0; i < k.g.bins.size(); ++i)
-    if (std::abs(k.g.bins[i].seg) <= k.maxseg_eff && !(c.zero && k.g.bins[i].endplane))
-      all_bins.push_back(static_cast<int>(i));
-  const Geo& gs = k.same_proj ? k.g : k.gs;
-  for (std::size_t i = 0; i < gs.bins.size(); ++i)
-    if (std::abs(gs.bins[i].seg) <= k.maxseg_eff && !(c.zero && gs.bins[i].endplane))
-      all_sens_bins.push_back(static_cast<int>(i));
+  // the TOF range of the property: the one requested with set_max_timing_pos_num_to_process, else all TOF bins of the data
+  const int tofmax_req = c.maxtof >= 0 ? c.maxtof : k.tofmax_data;
 
   {
     // malformed use: requests before set_up and a segment range larger than the data are refused
@@ -739,6 +767,8 @@ run_case(Out& o, Case& k, vh::Rng& rng, int case_id, bool thorough, std::map<std
       o.fail("request before set_up accepted " + c.str());
     if (ok3)
       o.fail("max_segment_num_to_process larger than the data accepted by set_up " + c.str());
+    o.line("segrange " + std::to_string(k.g.pdi->get_max_segment_num() + 1) + " " + std::to_string(k.g.pdi->get_max_segment_num()),
+           ok3 ? std::to_string(obj->get_max_segment_num_to_process()) : std::string("err"));
     ++hist["malformed-use"];
   }
   for (int n = 1; n <= views; ++n)
@@ -757,27 +787,90 @@ run_case(Out& o, Case& k, vh::Rng& rng, int case_id, bool thorough, std::map<std
         {
           threw = true;
         }
-      if (threw || su != Succeeded::yes)
+      const bool accepted = !threw && su == Succeeded::yes;
+      // ---- "every legal number of subsets": set_up refuses exactly the subset numbers whose subsets do not contain the same number of
+      // viewgrams, and those only if subset sensitivities are off.  Independent count: every (segment, view) of the segment range
+      // belongs to the subset given by the view number of its basic (segment, view).
+      {
+        std::vector<long> counts(n, 0);
+        const bool counted = guarded([&] {
+          const DataSymmetriesForViewSegmentNumbers& sy = *k.pair->get_symmetries_used();
+          for (int seg = -k.maxseg_eff; seg <= k.maxseg_eff; ++seg)
+            for (int view = k.g.pdi->get_min_view_num(); view <= k.g.pdi->get_max_view_num(); ++view)
+              {
+                ViewSegmentNumbers vs(view, seg);
+                sy.find_basic_view_segment_numbers(vs);
+                counts[(vs.view_num() - k.g.pdi->get_min_view_num()) % n]++;
+              }
+        });
+        if (counted)
+          {
+            bool balanced = true;
+            std::string cs;
+            for (int s = 0; s < n; ++s)
+              balanced = balanced && counts[s] == counts[0], cs += " " + std::to_string(counts[s]);
+            o.line(std::string("balance ") + (c.use_subset_sens ? "1" : "0") + cs, accepted ? "ok" : "refused");
+            ++o.checks;
+            ++hist[balanced ? "subsets-balanced" : "subsets-unbalanced"];
+            if (accepted != (balanced || c.use_subset_sens))
+              o.fail(std::string("set_up ") + (accepted ? "accepts" : "refuses") + " num_subsets=" + std::to_string(n) + " with viewgrams per subset" + cs
+                     + " and use_subset_sensitivities=" + (c.use_subset_sens ? "1" : "0") + " " + c.str());
+          }
+      }
+      if (!accepted)
         {
           ++hist["setup-refused"];
-          // the library refuses unbalanced subsets unless subset sensitivities are used
-          ++o.checks;
-          if (c.use_subset_sens)
-            o.fail("set_up refused although use_subset_sensitivities is on: " + c.str() + " n=" + std::to_string(n));
           continue;
         }
       ++hist["setup-ok"];
+      // ---- what set_up made of the segment range, the TOF range and the TOF sensitivity switch
+      const int tofmax_eff = obj->get_max_timing_pos_num_to_process();
+      const bool tofsens_obs = obj->get_use_tofsens();
+      const bool same_proj = !k.tof || tofsens_obs;
+      o.line("segrange " + std::to_string(c.maxseg) + " " + std::to_string(k.g.pdi->get_max_segment_num()),
+             std::to_string(obj->get_max_segment_num_to_process()));
+      if (c.maxtof < 0)
+        {
+          // (PoissonLogLikelihoodWithLinearModelForMeanAndProjData.cxx:646) TOF normalisation data switch TOF sensitivities on
+          o.line(std::string("tofsens 1 ") + (c.use_tofsens ? "1" : "0") + " " + (k.tof ? "1" : "0") + k.norm_links, tofsens_obs ? "1" : "0");
+          ++o.checks;
+          if (same_proj != k.same_proj)
+            o.fail(std::string("sensitivity computed with the ") + (same_proj ? "TOF" : "non-TOF") + " projector, expected the other one: " + c.str());
+        }
+      ++o.checks;
+      if (tofmax_eff != tofmax_req)
+        o.candidate("tofrange:set_max_timing_pos_num_to_process-ignored",
+                    "set_max_timing_pos_num_to_process(" + std::to_string(c.maxtof) + ") before set_up has no effect: after set_up "
+                    "get_max_timing_pos_num_to_process() = " + std::to_string(tofmax_eff) + " (set_up_before_sensitivity overwrites it with the maximum of "
+                    "the data) and value, gradient and sensitivity are those of all TOF bins, not of the requested TOF range; " + c.str() + " n=" + std::to_string(n));
+      else if (c.maxtof >= 0)
+        ++hist["tofrange-restricted-honoured"];
+      if (!same_proj && tofmax_eff < k.tofmax_data)
+        o.fail("TOF range restricted to " + std::to_string(tofmax_eff) + " but the sensitivity is computed with the non-TOF projector (all TOF bins): " + c.str());
+      // The remaining comparisons use the TOF range the object reports, so that anything else than "the range is the one reported" is a plain failure.
+      // all bins of the data set within the segment and TOF range (for the "sum over subsets = full" clause), independent of the subset scheme
+      const Geo& gs = same_proj ? k.g : k.gs;
+      const int stofmax = same_proj ? tofmax_eff : 0;
+      const char* sens_op = same_proj ? "sens" : "ssens";
+      const char* sensdiv_op = same_proj ? "sensdiv" : "ssensdiv";
+      std::vector<int> all_bins, all_sens_bins;
+      for (std::size_t i = 0; i < k.g.bins.size(); ++i)
+        if (std::abs(k.g.bins[i].seg) <= k.maxseg_eff && std::abs(k.g.bins[i].tof) <= tofmax_eff && !(c.zero && k.g.bins[i].endplane))
+          all_bins.push_back(static_cast<int>(i));
+      for (std::size_t i = 0; i < gs.bins.size(); ++i)
+        if (std::abs(gs.bins[i].seg) <= k.maxseg_eff && std::abs(gs.bins[i].tof) <= stofmax && !(c.zero && gs.bins[i].endplane))
+          all_sens_bins.push_back(static_cast<int>(i));
+
       const DataSymmetriesForViewSegmentNumbers& sym = *k.pair->get_symmetries_used();
       shared_ptr<DataSymmetriesForViewSegmentNumbers> sens_sym_holder;
-      shared_ptr<ProjMatrixByBinUsingRayTracing> sens_pm;
-      if (!k.same_proj)
+      if (!same_proj)
         {
           // symmetries of a projector with the same switches on the non-TOF geometry (what the clone of the back projector uses)
           shared_ptr<ProjectorByBinPair> p2 = make_pair_with_symmetries(c.symflags);
           p2->set_up(k.gs.pdi, k.image);
           sens_sym_holder.reset(p2->get_symmetries_used()->clone());
         }
-      const DataSymmetriesForViewSegmentNumbers& ssym = k.same_proj ? sym : *sens_sym_holder;
+      const DataSymmetriesForViewSegmentNumbers& ssym = same_proj ? sym : *sens_sym_holder;
 
       std::vector<double> sum_grad(nvox, 0.), sum_gps(nvox, 0.), sum_sens(nvox, 0.), sum_hess(nvox, 0.), sum_mag_grad(nvox, 0.),
           sum_mag_hess(nvox, 0.);
@@ -788,8 +881,8 @@ run_case(Out& o, Case& k, vh::Rng& rng, int case_id, bool thorough, std::map<std
 
       for (int s = 0; s < n; ++s)
         {
-          const std::vector<int> vg = subset_viewgrams(k.g, sym, k.maxseg_eff, s, n);
-          const std::vector<int> svg = subset_viewgrams(gs, ssym, k.maxseg_eff, s, n);
+          const std::vector<int> vg = subset_viewgrams(k.g, sym, k.maxseg_eff, tofmax_eff, s, n);
+          const std::vector<int> svg = subset_viewgrams(gs, ssym, k.maxseg_eff, stofmax, s, n);
           for (int id : vg)
             vg_count[id]++;
           const std::string tail = ids_str(vg);
@@ -834,17 +927,17 @@ run_case(Out& o, Case& k, vh::Rng& rng, int case_id, bool thorough, std::map<std
           std::vector<float> sensv;
           const bool sens_ok = guarded([&] { sensv = to_vec(obj->get_subset_sensitivity(s)); });
           if (c.use_subset_sens)
-            o.line("sens" + ids_str(svg), sens_ok ? hexvec(sensv) : "err");
+            o.line(sens_op + ids_str(svg), sens_ok ? hexvec(sensv) : "err");
           else
             {
               // total sensitivity divided by the number of subsets
               std::vector<int> allvg;
               for (int s2 = 0; s2 < n; ++s2)
                 {
-                  const std::vector<int> v2 = subset_viewgrams(gs, ssym, k.maxseg_eff, s2, n);
+                  const std::vector<int> v2 = subset_viewgrams(gs, ssym, k.maxseg_eff, stofmax, s2, n);
                   allvg.insert(allvg.end(), v2.begin(), v2.end());
                 }
-              o.line("sensdiv " + std::to_string(n) + ids_str(allvg), sens_ok ? hexvec(sensv) : "err");
+              o.line(std::string(sensdiv_op) + " " + std::to_string(n) + ids_str(allvg), sens_ok ? hexvec(sensv) : "err");
             }
           {
             Textbook tg = textbook(Q_GRAD, k.g, tb_bins, c.additive, k.lam, k.x, nvox);
@@ -878,7 +971,7 @@ run_case(Out& o, Case& k, vh::Rng& rng, int case_id, bool thorough, std::map<std
                              + vh::hex(ts.v[bad]) + " " + ctx);
                   }
                 // "gradient plus sensitivity" exceeds the gradient by exactly the sensitivity (same projector; subset sensitivities)
-                if (k.same_proj && c.use_subset_sens)
+                if (same_proj && c.use_subset_sens)
                   {
                     ++hist["oracle-gps-minus-grad"];
                     std::vector<float> diff(nvox);
@@ -1024,7 +1117,7 @@ run_case(Out& o, Case& k, vh::Rng& rng, int case_id, bool thorough, std::map<std
         // every viewgram of the segment range exactly once over the subsets
         bool part_ok = true;
         for (auto& kv : k.g.vgid)
-          if (std::abs(kv.first[0]) <= k.maxseg_eff)
+          if (std::abs(kv.first[0]) <= k.maxseg_eff && std::abs(kv.first[2]) <= tofmax_eff)
             part_ok = part_ok && vg_count[kv.second] == 1;
         for (auto& kv : vg_count)
           part_ok = part_ok && kv.second == 1;
@@ -1048,7 +1141,7 @@ run_case(Out& o, Case& k, vh::Rng& rng, int case_id, bool thorough, std::map<std
             {
               std::vector<int> all_bins_h;
               for (std::size_t i = 0; i < k.g.bins.size(); ++i)
-                if (std::abs(k.g.bins[i].seg) <= k.maxseg_eff)
+                if (std::abs(k.g.bins[i].seg) <= k.maxseg_eff && std::abs(k.g.bins[i].tof) <= tofmax_eff)
                   all_bins_h.push_back(static_cast<int>(i));
               Textbook thh = c.zero ? textbook(Q_HESS, k.g, all_bins_h, c.additive, k.lam, k.x, nvox) : th;
               if (thh.regular)
@@ -1089,7 +1182,9 @@ run_penalised(Out& o, Case& k, vh::Rng& rng, std::map<std::string, long>& hist)
   shared_ptr<TargetT> lam_im(k.image->get_empty_copy()), x_im(k.image->get_empty_copy());
   from_vec(*lam_im, k.lam);
   from_vec(*x_im, k.x);
-  for (int attempt = 0; attempt < 4; ++attempt)
+  const int reps = 2;
+  int done = 0;
+  for (int attempt = 0; attempt < 6; ++attempt)
     {
       const int n = rng.range(1, views);
       const int s = rng.range(0, n - 1);
@@ -1193,7 +1288,136 @@ run_penalised(Out& o, Case& k, vh::Rng& rng, std::map<std::string, long>& hist)
                      + (bad_alt < 0 ? " (it is unpenalised - (prior Hessian x OUTPUT)/num_subsets): " : ": ") + where);
             }
         }
-      return;
+      // ---- the full-data functions with a prior attached, and the public *_without_penalty functions of the object that holds the prior:
+      // every result goes to the model (which recomputes it from the bins of the viewgrams and the prior's term) and, as oracle,
+      // is compared with the object without prior: unpenalised = that object's result bit for bit, penalised full = that result - prior term
+      {
+        const int tofmax_eff = B->get_max_timing_pos_num_to_process();
+        const DataSymmetriesForViewSegmentNumbers& sym = *k.pair->get_symmetries_used();
+        std::vector<int> allvg;
+        std::string tail_split;
+        std::string tail_s;
+        for (int s2 = 0; s2 < n; ++s2)
+          {
+            const std::vector<int> v2 = subset_viewgrams(k.g, sym, k.maxseg_eff, tofmax_eff, s2, n);
+            allvg.insert(allvg.end(), v2.begin(), v2.end());
+            tail_split += std::string(s2 ? " /" : "") + ids_str(v2);
+            if (s2 == s)
+              tail_s = ids_str(v2);
+          }
+        const std::string tail_all = ids_str(allvg);
+        const std::string N = std::to_string(n), V = std::to_string(nvox);
+        auto fvec = [](const TargetT& im) { return std::vector<float>(im.begin_all_const(), im.end_all_const()); };
+        auto new_im = [&](float fill) {
+          shared_ptr<TargetT> im(k.image->get_empty_copy());
+          im->fill(fill);
+          return im;
+        };
+        auto same_bits = [&](const char* what, const std::vector<float>& a, const std::vector<float>& b) {
+          ++o.checks;
+          if (a != b)
+            o.fail(std::string(what) + " on the object with a prior differs from the result of the object without prior " + ctx);
+        };
+        auto minus_prior = [&](const char* what, const std::vector<float>& got, const std::vector<float>& q, const std::vector<float>& pr) {
+          ++o.checks;
+          for (std::size_t i = 0; i < got.size(); ++i)
+            if (!(std::fabs(double(got[i]) - (double(q[i]) - double(pr[i]))) <= 1e-5 * (std::fabs(q[i]) + std::fabs(pr[i]) + std::fabs(c0)) + 1e-30))
+              {
+                o.fail(std::string("penalised ") + what + " != unpenalised - prior term at voxel " + std::to_string(i) + ": " + vh::hex(got[i]) + " vs "
+                       + vh::hex(q[i]) + " - " + vh::hex(pr[i]) + " " + ctx);
+                break;
+              }
+        };
+        const bool ran = guarded([&] {
+          // value
+          const double pv = prior->compute_value(*lam_im);
+          const double a_sub = A->compute_objective_function(*lam_im, s);
+          const double b_sub_wo = B->compute_objective_function_without_penalty(*lam_im, s);
+          const double b_sub = B->compute_objective_function(*lam_im, s);
+          const double a_full = A->compute_objective_function(*lam_im);
+          const double b_full_wo = B->compute_objective_function_without_penalty(*lam_im);
+          const double b_full = B->compute_objective_function(*lam_im);
+          o.line("val" + tail_s, vh::hex(b_sub_wo));
+          o.line("pval " + N + " " + vh::hex(pv) + tail_s, vh::hex(b_sub));
+          o.line("val" + tail_all, vh::hex(b_full_wo));
+          o.line("pvalfull " + vh::hex(pv) + tail_all, vh::hex(b_full));
+          o.checks += 3;
+          if (b_sub_wo != a_sub || b_full_wo != a_full)
+            o.fail("compute_objective_function_without_penalty on the object with a prior differs from the result of the object without prior " + ctx);
+          if (!(std::fabs(b_full - (a_full - pv)) <= 1e-12 * (std::fabs(a_full) + std::fabs(pv))))
+            o.fail("compute_objective_function(image) with a prior != unpenalised - prior value: " + vh::hex(b_full) + " vs " + vh::hex(a_full) + " - "
+                   + vh::hex(pv) + " " + ctx);
+          if (!(std::fabs(b_sub - (a_sub - pv / n)) <= 1e-12 * (std::fabs(a_sub) + std::fabs(pv))))
+            o.fail("compute_objective_function(image, subset) with a prior != unpenalised - prior value/num_subsets " + ctx);
+          // gradient
+          shared_ptr<TargetT> pg = new_im(0.F);
+          prior->compute_gradient(*pg, *lam_im);
+          const std::string pgs = " " + hexvec(fvec(*pg));
+          shared_ptr<TargetT> ga = new_im(1.F), gbw = new_im(2.F), gb = new_im(3.F);
+          A->compute_sub_gradient(*ga, *lam_im, s);
+          B->compute_sub_gradient_without_penalty(*gbw, *lam_im, s);
+          B->compute_sub_gradient(*gb, *lam_im, s);
+          o.line("grad" + tail_s, hexvec(fvec(*gbw)));
+          o.line("pgrad " + N + " " + V + pgs + tail_s, hexvec(fvec(*gb)));
+          same_bits("compute_sub_gradient_without_penalty", fvec(*gbw), fvec(*ga));
+          shared_ptr<TargetT> fa = new_im(1.F), fbw = new_im(2.F), fb = new_im(3.F);
+          A->compute_gradient(*fa, *lam_im);
+          B->compute_gradient_without_penalty(*fbw, *lam_im);
+          B->compute_gradient(*fb, *lam_im);
+          o.line("grad" + tail_all, hexvec(fvec(*fbw)));
+          o.line("pgradfull " + V + pgs + tail_all, hexvec(fvec(*fb)));
+          same_bits("compute_gradient_without_penalty", fvec(*fbw), fvec(*fa));
+          minus_prior("compute_gradient", fvec(*fb), fvec(*fa), fvec(*pg));
+          // Hessian times input and approximate Hessian
+          for (int approx = 0; approx < 2; ++approx)
+            {
+              shared_ptr<TargetT> ph = new_im(0.F);
+              shared_ptr<TargetT> sa = new_im(c0), sbw = new_im(c0), sb = new_im(c0), ha = new_im(c0), hbw = new_im(c0), hb = new_im(c0);
+              Succeeded r = Succeeded::yes;
+              auto all_yes = [&](Succeeded x) { if (x != Succeeded::yes) r = Succeeded::no; };
+              if (approx)
+                {
+                  prior->add_multiplication_with_approximate_Hessian(*ph, *x_im);
+                  all_yes(A->add_multiplication_with_approximate_sub_Hessian(*sa, *x_im, s));
+                  all_yes(B->add_multiplication_with_approximate_sub_Hessian_without_penalty(*sbw, *x_im, s));
+                  all_yes(B->add_multiplication_with_approximate_sub_Hessian(*sb, *x_im, s));
+                  all_yes(A->add_multiplication_with_approximate_Hessian(*ha, *x_im));
+                  all_yes(B->add_multiplication_with_approximate_Hessian_without_penalty(*hbw, *x_im));
+                  all_yes(B->add_multiplication_with_approximate_Hessian(*hb, *x_im));
+                }
+              else
+                {
+                  prior->accumulate_Hessian_times_input(*ph, *lam_im, *x_im);
+                  all_yes(A->accumulate_sub_Hessian_times_input(*sa, *lam_im, *x_im, s));
+                  all_yes(B->accumulate_sub_Hessian_times_input_without_penalty(*sbw, *lam_im, *x_im, s));
+                  all_yes(B->accumulate_sub_Hessian_times_input(*sb, *lam_im, *x_im, s));
+                  all_yes(A->accumulate_Hessian_times_input(*ha, *lam_im, *x_im));
+                  all_yes(B->accumulate_Hessian_times_input_without_penalty(*hbw, *lam_im, *x_im));
+                  all_yes(B->accumulate_Hessian_times_input(*hb, *lam_im, *x_im));
+                }
+              ++o.checks;
+              if (r != Succeeded::yes)
+                o.fail("a Hessian function returned Succeeded::no " + ctx);
+              const std::string nm = approx ? "ahess" : "hess";
+              const std::string phs = " " + hexvec(fvec(*ph));
+              o.line(nm + " " + vh::hex(c0) + tail_s, hexvec(fvec(*sbw)));
+              o.line("p" + nm + " " + N + " " + vh::hex(c0) + " " + V + phs + tail_s, hexvec(fvec(*sb)));
+              o.line(nm + " " + vh::hex(c0) + tail_all, hexvec(fvec(*hbw)));
+              o.line("p" + nm + "full " + N + " " + vh::hex(c0) + " " + V + phs + tail_split, hexvec(fvec(*hb)));
+              same_bits(approx ? "add_multiplication_with_approximate_sub_Hessian_without_penalty" : "accumulate_sub_Hessian_times_input_without_penalty",
+                        fvec(*sbw), fvec(*sa));
+              same_bits(approx ? "add_multiplication_with_approximate_Hessian_without_penalty" : "accumulate_Hessian_times_input_without_penalty",
+                        fvec(*hbw), fvec(*ha));
+              minus_prior(approx ? "add_multiplication_with_approximate_Hessian" : "accumulate_Hessian_times_input", fvec(*hb), fvec(*ha), fvec(*ph));
+            }
+        });
+        ++o.checks;
+        if (!ran)
+          o.fail("full-data / without-penalty functions with a prior attached: exception " + ctx);
+        ++hist["penalised-full-data"];
+      }
+      if (++done >= reps)
+        return;
     }
 }
 
@@ -1280,7 +1504,8 @@ run_orders(Out& o, Case& k, vh::Rng& rng, bool thorough, std::map<std::string, l
                   ++hist["orders-setup-refused"];
                   continue;
                 }
-              std::string op = std::string("hist ") + (k.same_proj ? "1" : "0") + " " + (recompute ? "1" : "0") + " " + std::to_string(n) + " "
+              // (the TOF sensitivity switch as the object has it after set_up: TOF normalisation data turn it on only when set_up computes the sensitivities)
+              std::string op = std::string("hist ") + (!k.tof || obj->get_use_tofsens() ? "1" : "0") + " " + (recompute ? "1" : "0") + " " + std::to_string(n) + " "
                                + std::to_string(fill) + " " + std::to_string(fill);
               std::string ans, order;
               for (auto& req : kinds)
@@ -1341,7 +1566,7 @@ run_orders(Out& o, Case& k, vh::Rng& rng, bool thorough, std::map<std::string, l
           }))
         continue;
       static const char* all[] = { "value", "gradient", "gps", "sensitivity", "hessian", "ahessian" };
-      std::string op = std::string("hist ") + (k.same_proj ? "1" : "0") + " 1 " + std::to_string(n) + " " + std::to_string(fill) + " " + std::to_string(fill);
+      std::string op = std::string("hist ") + (!k.tof || obj->get_use_tofsens() ? "1" : "0") + " 1 " + std::to_string(n) + " " + std::to_string(fill) + " " + std::to_string(fill);
       std::string ans;
       const int len = rng.range(3, 8);
       for (int i = 0; i < len; ++i)
@@ -1365,6 +1590,182 @@ run_orders(Out& o, Case& k, vh::Rng& rng, bool thorough, std::map<std::string, l
         }
       o.line(op, ans);
       ++hist["orders-histories"];
+    }
+}
+
+
+// ------------------------------------------------------------------------------------------------
+// sensitivities that set_up does not compute: read from the files an identical object wrote (total or per subset), or supplied by pointer;
+// the loaded (subset) sensitivities go to the model and to the textbook oracle like the computed ones
+static void
+run_loaded(Out& o, Case& k, vh::Rng& rng, const std::string& prefix, std::map<std::string, long>& hist)
+{
+  const CaseCfg& c = k.c;
+  const int nvox = k.ix->size();
+  const int views = c.N / 2;
+  shared_ptr<TargetT> lam_im(k.image->get_empty_copy()), x_im(k.image->get_empty_copy());
+  from_vec(*lam_im, k.lam);
+  from_vec(*x_im, k.x);
+  const std::string tot = prefix + "_tot.hv", sub = prefix + "_sub%d.hv";
+  auto cleanup = [&](int n) {
+    std::remove(tot.c_str());
+    std::remove((prefix + "_tot.v").c_str());
+    std::remove((prefix + "_tot.ahv").c_str());
+    for (int s = 0; s < n; ++s)
+      {
+        std::remove((prefix + "_sub" + std::to_string(s) + ".hv").c_str());
+        std::remove((prefix + "_sub" + std::to_string(s) + ".v").c_str());
+        std::remove((prefix + "_sub" + std::to_string(s) + ".ahv").c_str());
+      }
+  };
+  auto set_up_ok = [&](Obj& obj) {
+    return guarded([&] {
+      if (obj.set_up(k.image) != Succeeded::yes)
+        throw 1;
+    });
+  };
+  for (int attempt = 0; attempt < 4; ++attempt)
+    {
+      const int n = rng.range(1, views);
+      Holder W(0);
+      configure(*W, k, n);
+      if (c.use_subset_sens)
+        W->set_subsensitivity_filenames(sub);
+      else
+        W->set_sensitivity_filename(tot);
+      W->set_recompute_sensitivity(true); // (the default is to read the files when names are given)
+      if (!set_up_ok(*W))
+        {
+          cleanup(n);
+          continue;
+        }
+      const std::string ctx = c.str() + " n=" + std::to_string(n);
+      Holder R(1);
+      configure(*R, k, n);
+      if (c.use_subset_sens)
+        R->set_subsensitivity_filenames(sub);
+      else
+        R->set_sensitivity_filename(tot);
+      R->set_recompute_sensitivity(false);
+      ++o.checks;
+      if (!set_up_ok(*R))
+        {
+          o.fail("set_up refuses to read the (subset) sensitivities from the files an identical object has just written " + ctx);
+          cleanup(n);
+          return;
+        }
+      ++hist["sensitivity-from-file"];
+      const bool same_proj = !k.tof || W->get_use_tofsens();
+      const int tofmax_eff = W->get_max_timing_pos_num_to_process();
+      const Geo& gs = same_proj ? k.g : k.gs;
+      const int stofmax = same_proj ? tofmax_eff : 0;
+      const DataSymmetriesForViewSegmentNumbers& sym = *k.pair->get_symmetries_used();
+      shared_ptr<DataSymmetriesForViewSegmentNumbers> sens_sym_holder;
+      if (!same_proj)
+        {
+          shared_ptr<ProjectorByBinPair> p2 = make_pair_with_symmetries(c.symflags);
+          p2->set_up(k.gs.pdi, k.image);
+          sens_sym_holder.reset(p2->get_symmetries_used()->clone());
+        }
+      const DataSymmetriesForViewSegmentNumbers& ssym = same_proj ? sym : *sens_sym_holder;
+      std::vector<int> allvg;
+      for (int s = 0; s < n; ++s)
+        {
+          const std::vector<int> v2 = subset_viewgrams(gs, ssym, k.maxseg_eff, stofmax, s, n);
+          allvg.insert(allvg.end(), v2.begin(), v2.end());
+        }
+      const Textbook tt = textbook(Q_SENS, gs, bins_of(gs, allvg, c.zero), c.additive, k.lam, k.x, nvox);
+      for (int s = 0; s < n; ++s)
+        {
+          const std::vector<int> svg = subset_viewgrams(gs, ssym, k.maxseg_eff, stofmax, s, n);
+          std::vector<float> sensv, wv;
+          const bool ok = guarded([&] {
+            sensv = to_vec(R->get_subset_sensitivity(s));
+            wv = to_vec(W->get_subset_sensitivity(s));
+          });
+          if (c.use_subset_sens)
+            o.line((same_proj ? "sens" : "ssens") + ids_str(svg), ok ? hexvec(sensv) : "err");
+          else
+            o.line(std::string(same_proj ? "sensdiv " : "ssensdiv ") + std::to_string(n) + ids_str(allvg), ok ? hexvec(sensv) : "err");
+          o.checks += 2;
+          if (!ok)
+            {
+              o.fail("get_subset_sensitivity on the object that read its sensitivities from file: exception " + ctx);
+              continue;
+            }
+          if (sensv != wv)
+            o.fail("subset sensitivity " + std::to_string(s) + " read from file differs from the one that was written " + ctx);
+          Textbook ts = c.use_subset_sens ? textbook(Q_SENS, gs, bins_of(gs, svg, c.zero), c.additive, k.lam, k.x, nvox) : tt;
+          if (!c.use_subset_sens)
+            for (int i = 0; i < nvox; ++i)
+              ts.v[i] /= n, ts.m[i] /= n;
+          const int bad = cmp_vec(sensv, ts.v, ts.m, ORACLE_REL);
+          if (bad >= 0)
+            o.fail("subset sensitivity read from file differs from P^T n" + std::string(c.use_subset_sens ? "" : " / num_subsets") + " at voxel "
+                   + std::to_string(bad) + ": impl=" + vh::hex(sensv[bad]) + " textbook=" + vh::hex(ts.v[bad]) + " " + ctx + " subset=" + std::to_string(s));
+        }
+      {
+        // the total the object derives from what it read, and requests served by an object that never computed a sensitivity
+        o.checks += 3;
+        std::vector<float> tr, tw;
+        if (!guarded([&] {
+              tr = to_vec(R->get_sensitivity());
+              tw = to_vec(W->get_sensitivity());
+            }))
+          o.fail("get_sensitivity on the object that read its sensitivities from file: exception " + ctx);
+        else
+          {
+            const int bad = cmp_vec(tr, tt.v, tt.m, 2 * ORACLE_REL);
+            if (bad >= 0)
+              o.fail("get_sensitivity() after reading from file != P^T n at voxel " + std::to_string(bad) + ": " + vh::hex(tr[bad]) + " vs "
+                     + vh::hex(tt.v[bad]) + " " + ctx);
+            if (tr != tw)
+              o.fail("get_sensitivity() after reading from file differs from the object that computed it " + ctx);
+          }
+        for (const char* req : { "value", "gradient", "gps", "hessian", "ahessian" })
+          {
+            const ReqResult rf = serve(*W, k, req, *lam_im, *x_im);
+            const ReqResult rr = serve(*R, k, req, *lam_im, *x_im);
+            ++o.checks;
+            if (!rf.same(rr))
+              o.fail(std::string("request '") + req + "' on an object that read its sensitivities from file " + (rr.ok ? "gives a different result than" : "fails, whereas it succeeds")
+                     + " on an object that computed them " + ctx);
+          }
+      }
+      cleanup(n);
+      // ---- subset sensitivities supplied by pointer (set_subset_sensitivity_sptr), no file names, recompute off: if set_up accepts that,
+      // the supplied images must be what get_subset_sensitivity returns
+      if (c.use_subset_sens)
+        {
+          Holder P(0);
+          configure(*P, k, n);
+          if (set_up_ok(*P))
+            {
+              std::vector<shared_ptr<TargetT>> given;
+              for (int s = 0; s < n; ++s)
+                {
+                  given.push_back(shared_ptr<TargetT>(k.image->get_empty_copy()));
+                  given.back()->fill(1.F + s);
+                  P->set_subset_sensitivity_sptr(given.back(), s);
+                }
+              P->set_recompute_sensitivity(false);
+              ++o.checks;
+              if (set_up_ok(*P))
+                {
+                  ++hist["sensitivity-by-pointer-accepted"];
+                  for (int s = 0; s < n; ++s)
+                    if (to_vec(P->get_subset_sensitivity(s)) != to_vec(*given[s]))
+                      {
+                        o.fail("set_subset_sensitivity_sptr + recompute off accepted by set_up, but get_subset_sensitivity(" + std::to_string(s)
+                               + ") is not the image supplied " + ctx);
+                        break;
+                      }
+                }
+              else
+                ++hist["sensitivity-by-pointer-refused"];
+            }
+        }
+      return;
     }
 }
 
@@ -1398,11 +1799,21 @@ main(int argc, char** argv)
       c.ntang = rng.range(3, c.N / 2 - 1);
       c.symflags = rng.range(0, 31);
       c.normkind = ci % 5;
+      if (tof)
+        {
+          // TOF data: also normalisation with one factor per TOF bin (5: FromProjData, 6: table x FromProjData(TOF), 7: FromProjData(TOF) x TOF table)
+          static const int kinds[8] = { 0, 1, 5, 6, 2, 7, 3, 4 };
+          c.normkind = kinds[(ci / 3) % 8];
+        }
       c.additive = rng.range(0, 2) != 0;
       c.zero = rng.range(0, 2) == 0;
       c.maxseg = rng.range(0, 2) == 0 ? rng.range(0, c.span == 3 ? 1 : c.R - 1) : -1;
       c.use_subset_sens = rng.range(0, 3) != 0;
       c.use_tofsens = tof && rng.coin();
+      // "TOF range": set_max_timing_pos_num_to_process below the maximum of the data (in about half of the TOF cases)
+      c.maxtof = -1;
+      if (tof && (ci / 3) % 2 == 1)
+        c.maxtof = rng.range(0, (c.tofbins / c.tofmash - 1) / 2 - 1);
       c.datamode = ci % 4;
       if (c.datamode == 2)
         c.additive = false; // vanishing means need the additive term off
@@ -1428,7 +1839,7 @@ main(int argc, char** argv)
       if (!ok)
         {
           ++hist["case-skipped-rows-differ-with-symmetries"];
-          if (retries < 8)
+          if (retries < 3 * ncases)
             {
               ++retries;
               --ci;
@@ -1439,6 +1850,7 @@ main(int argc, char** argv)
       run_penalised(o, k, rng, hist);
       if (ci % 3 != 2)
         run_orders(o, k, rng, thorough, hist);
+      run_loaded(o, k, rng, std::string(argv[4]) + ".sens", hist);
     }
 
   for (auto& kv : hist)
